@@ -119,5 +119,77 @@ theorem oidOf_stopOne_ne (st : State) (sid oid j : Nat) (h : j ≠ sid) : (stopO
   unfold stopOne
   (repeat' split) <;> simp [oidOf_finish_ne _ _ _ h, oidOf_unregister_ne _ _ _ h]
 
+/-! ### the reassembly cache, stream by stream -/
+
+/-- the partial frame(s) the reassembly cache holds for stream `j` -/
+def State.partialOf (st : State) (j : Nat) : List (Nat × Frame) := st.cache.filter (·.1 == j)
+
+theorem filter_filter_ne {α : Type} (l : List (Nat × α)) (sid j : Nat) (h : j ≠ sid) :
+    (l.filter (·.1 != sid)).filter (·.1 == j) = l.filter (·.1 == j) := by
+  rw [List.filter_filter]
+  apply List.filter_congr
+  intro x _
+  by_cases hx : x.1 = j
+  · have : x.1 ≠ sid := by rw [hx]; exact h
+    simp [hx]; intro e; exact absurd (hx ▸ e) h
+  · simp [hx]
+
+theorem partialOf_finish_ne (st : State) (sid j : Nat) (h : j ≠ sid) : (st.finish sid).partialOf j = st.partialOf j := by
+  simp only [State.partialOf, State.finish]
+  exact filter_filter_ne _ _ _ h
+
+@[simp] theorem partialOf_unregister (st : State) (sid j : Nat) : (st.unregister sid).partialOf j = st.partialOf j := rfl
+@[simp] theorem partialOf_setObj (st : State) (oid : Nat) (s : Stream) (j : Nat) : (st.setObj oid s).partialOf j = st.partialOf j := rfl
+@[simp] theorem partialOf_register (st : State) (s : Stream) (j : Nat) : (st.register s).1.partialOf j = st.partialOf j := rfl
+
+theorem partialOf_markChannel_ne (st : State) (oid : Nat) (s : Stream) (r t : Bool) (j : Nat) (h : j ≠ s.sid) :
+    (markChannel st oid s r t).partialOf j = st.partialOf j := by
+  simp only [markChannel]
+  split
+  · rw [partialOf_finish_ne _ _ _ h]; rfl
+  · rfl
+
+theorem partialOf_frameReceived_ne (st : State) (oid : Nat) (s : Stream) (f : Frame) (j : Nat) (h : j ≠ s.sid) :
+    (frameReceived st oid s f).1.partialOf j = st.partialOf j := by
+  unfold frameReceived
+  cases s.kind <;> simp only <;> cases f.ty <;> simp only <;> (repeat' split) <;>
+    simp [partialOf_finish_ne _ _ _ h, partialOf_markChannel_ne _ _ _ _ _ _ h]
+
+theorem partialOf_cacheAppend_ne (st : State) (f : Frame) (j : Nat) (h : j ≠ f.sid) :
+    (cacheAppend st f).1.partialOf j = st.partialOf j := by
+  have hne : (f.sid == j) = false := by simp; exact fun e => h e.symm
+  unfold cacheAppend
+  simp only
+  (repeat' split) <;> simp only [State.partialOf, List.filter_append, filter_filter_ne _ _ _ h] <;> simp [hne]
+
+theorem partialOf_handleByType_ne (st : State) (f : Frame) (b : Behaviour) (j : Nat) (h : j ≠ f.sid) :
+    (handleByType st f b).1.partialOf j = st.partialOf j := by
+  unfold handleByType
+  cases f.ty <;> simp only
+  case requestResponse => split <;> (try cases b) <;> simp only <;> (repeat' split) <;> rfl
+  case requestStream => split <;> (try cases b) <;> simp only <;> (repeat' split) <;> rfl
+  case requestFnf => split <;> (try cases b) <;> rfl
+  case setup => (repeat' split) <;> rfl
+  case metadataPush => cases b <;> rfl
+  case requestChannel =>
+    split
+    · rfl
+    · cases b <;> simp only <;> (try rfl)
+      rename_i hasPub hasSub
+      split
+      · rfl
+      · have hm : ∀ (st' : State) (oid : Nat) (s : Stream) (r t : Bool), s.sid = f.sid →
+            (markChannel st' oid s r t).partialOf j = st'.partialOf j :=
+          fun st' oid s r t hs => partialOf_markChannel_ne st' oid s r t j (by rw [hs]; exact h)
+        generalize hreg : st.register { kind := .chResp, sid := f.sid, hasPub := hasPub, subscribed := hasSub, setupDone := true } = r
+        have h0 : r.1.partialOf j = st.partialOf j := by rw [← hreg]; rfl
+        have ho : r.1.obj r.2 = some { kind := .chResp, sid := f.sid, hasPub := hasPub, subscribed := hasSub, setupDone := true } := by
+          rw [← hreg]; exact obj_register st _
+        rcases r with ⟨st0, oid⟩
+        simp only at h0 ho ⊢
+        cases hasSub <;> cases hasPub <;> cases f.complete <;>
+          simp [ho, markChannel_obj, hm, h0]
+  all_goals rfl
+
 end RSocketModel.Engine
 
